@@ -1088,6 +1088,62 @@ pub fn arc_family(nchildren: usize, maxlen: usize, main_len: usize, max_total: u
 
 /// LEAK family: tracked values, raw allocations, arcs and channel messages that are released or
 /// not depending on the result of a CAS race.
+/// ARC with a cell and no handle kept by main: main creates the arc, hands one clone to each of
+/// `n` children and drops its own handle before spawning them. Every child reads the cell and
+/// then drops its handle (optionally after inspecting); the payload's Drop writes the cell, so
+/// every earlier drop must happen-before the final one, whichever child performs it.
+pub fn arc_cell_children_only(n: usize) -> Vec<Program> {
+    let mut out = vec![];
+    let mut pre: Vec<Op> = vec![K::ArcNew { h: 0, arc: 0 }.into()];
+    for t in 1..=n {
+        pre.push(K::ArcClone { from: 0, to: 2 * t }.into());
+    }
+    pre.push(K::ArcDrop { h: 0 }.into());
+    let variants: Vec<Vec<K>> = vec![vec![], vec![K::ArcCount { h: 0 }], vec![K::ArcGetMut { h: 0 }]];
+    // every assignment of a variant to each child (unordered)
+    fn rec(n: usize, nv: usize, start: usize, cur: &mut Vec<usize>, out: &mut Vec<Vec<usize>>) {
+        if cur.len() == n {
+            out.push(cur.clone());
+            return;
+        }
+        for v in start..nv {
+            cur.push(v);
+            rec(n, nv, v, cur, out);
+            cur.pop();
+        }
+    }
+    let mut assigns = vec![];
+    rec(n, variants.len(), 0, &mut vec![], &mut assigns);
+    for a in assigns {
+        for last_unwraps in [false, true] {
+            let mut children: Vec<Vec<Op>> = vec![];
+            for (i, &v) in a.iter().enumerate() {
+                let h = 2 * (i + 1);
+                let mut th: Vec<Op> = vec![rd(0)];
+                for k in &variants[v] {
+                    let mut k = k.clone();
+                    match &mut k {
+                        K::ArcCount { h: x } | K::ArcGetMut { h: x } => *x = h,
+                        _ => {}
+                    }
+                    th.push(k.into());
+                }
+                if last_unwraps && i + 1 == n {
+                    let at = th.len();
+                    th.push(K::ArcTryUnwrap { h }.into());
+                    th.push(K::ArcDrop { h }.when(at, Res::Err(0)));
+                } else {
+                    th.push(K::ArcDrop { h }.into());
+                }
+                children.push(th);
+            }
+            let objs = Objs { handles: 2 * (n + 1), arcs: vec![Some(0)], cells: 1, ..Default::default() };
+            out.push(with_main("ARC+cell-children", objs, pre.clone(), children, vec![], vec![]));
+        }
+    }
+    out
+}
+
 pub fn leak_family() -> Vec<Program> {
     use crate::ir::MO::*;
     let mut out = vec![];
